@@ -12,18 +12,18 @@ AccOptions == { <<k, f>> : k \in Keys2, f \in {"string", "view"} }
 Init15 == InitWith(BOOLEAN, BOOLEAN, Cookies, Headers)
 Next15 == /\ Len(ctxs) = 1
           /\ \E parent \in {0, 1}, cookieOn \in BOOLEAN,
-                cookie \in (IF SubVariants = "full" THEN Cookies ELSE { [state |-> "absent", l |-> None], [state |-> "invalid", l |-> None], [state |-> "valid", l |-> "de"] }),
+                cookie \in (IF SubVariants = "full" THEN Cookies ELSE { [state |-> "absent", l |-> None, sp |-> "prefix"], [state |-> "invalid", l |-> None, sp |-> "case"], [state |-> "valid", l |-> "de", sp |-> "decoy"] }),
                 initial \in (IF SubVariants = "full" THEN Locs \cup {None} ELSE {None, "fr"}),
                 header \in (IF SubVariants = "full" THEN { <<>>, <<"de">>, <<"it", "frCA">> } ELSE { <<"it", "frCA">> }) :
                 CreateSub(parent, cookieOn, cookie, initial, header)
 
 \* C16: a few starting points, then histories of set / scope / accessor / sub-context operations
-Init16 == InitWith({TRUE}, {FALSE}, { [state |-> "absent", l |-> None], [state |-> "valid", l |-> "fr"] }, { <<>>, <<"de">> })
+Init16 == InitWith({TRUE}, {FALSE}, { [state |-> "absent", l |-> None, sp |-> "other"], [state |-> "valid", l |-> "fr", sp |-> "last"] }, { <<>>, <<"de">> })
 Next16 == \/ \E v \in DOMAIN views, x \in Locs, t \in BOOLEAN : SetLocale(v, x, t)
           \/ \E v \in DOMAIN views : ScopeView(v)
           \/ \E v \in DOMAIN views, o \in AccOptions : MakeAccessor(v, o[1], o[2])
           \/ \E parent \in DOMAIN ctxs, initial \in {None, "de"} :
-                CreateSub(parent, FALSE, [state |-> "absent", l |-> None], initial, <<>>)
+                CreateSub(parent, FALSE, [state |-> "absent", l |-> None, sp |-> "other"], initial, <<>>)
 
 MCInit == IF Mode = "c15" THEN Init15 ELSE Init16
 MCNext == IF Mode = "c15" THEN Next15 ELSE Next16
